@@ -5,6 +5,7 @@
 (* text or a file tree):                                                    *)
 (*                                                                          *)
 (*   Compile(input)  ends in  Ok (a package)  or  Report(spans);            *)
+(*   (for an input that is erroneous by construction only Report);          *)
 (*   a report is rendered without and with colour, Render(report, c) ends   *)
 (*   in Done and shows every label of the report;                           *)
 (*   every location a report cites is well formed: it lies inside the cited *)
@@ -30,11 +31,20 @@ WellFormed(sp) == sp.start <= sp.end /\ sp.end <= sp.len /\ sp.ok
 
 Init == phase = "idle" /\ cited = <<>> /\ shown = {}
 
-CompileOk == phase = "idle" /\ UNCHANGED tvars0
+(* Some inputs are erroneous by construction (must = "report": an infinite type, a string literal  *)
+(* with an invalid escape): for them a package is not an outcome.  Where the input grammar knows   *)
+(* the erroneous text (at = <<start, end>>: the invalid escape, from its backslash to its end) the *)
+(* first location the report cites is exactly that text.                                           *)
+CompileOk(must) == phase = "idle" /\ must # "report" /\ UNCHANGED tvars0
 
-CompileReport(spans) ==
+CitesExactly(spans, at) == IF at = <<>> THEN TRUE
+                           ELSE IF spans = <<>> THEN FALSE
+                           ELSE spans[1].start = at[1] /\ spans[1].end = at[2]
+
+CompileReport(spans, at) ==
   /\ phase = "idle"
   /\ \A i \in 1..Len(spans) : WellFormed(spans[i])
+  /\ CitesExactly(spans, at)
   /\ phase' = "report" /\ cited' = spans /\ shown' = {}
 
 (* rendering shows all `labels` labels of the report (labelsShown of them appeared) *)
